@@ -46,24 +46,160 @@ Theorem C13_split_order_irrelevant : forall s t xs ys,
 Proof. exact split_order_irrelevant. Qed.
 Print Assumptions C13_split_order_irrelevant.
 
-(* What an "ok" verdict of the correspondence comparator certifies: after EVERY operation of
-   the recorded history, the accumulator it touched satisfies the batch invariant for exactly
-   the values fed to it and all nine observed statistics passed the comparison ... *)
-Theorem C13_check_ok_sound : forall k ops tag,
-  run_cmp (repeat s_init k) ops 0%Z 0%Z = (tag, None) -> forall n, step_ok k ops n.
+(* ---------------------------------------------------------------------------------------------
+   What a passing verdict of the correspondence comparator means.
+   --------------------------------------------------------------------------------------------- *)
+
+(* The whole verdict: if check_C13 accepts a case line (code 0; it never returns 1) then the line parses
+   COMPLETELY into k, the observation fr of a fresh accumulator and a history ops (nothing left over, first
+   integer 13); fr shows Count = 0, Total = 0, Weight = 0; and after EVERY operation n of the history the
+   nine statistics observed on the accumulator that operation touched are [batch_ok] (next theorem's
+   conclusion, Proofs/CheckC13.v) for exactly the values fed to that accumulator so far — directly or through
+   the accumulators combined into it, s.Combine(s) taking them twice. *)
+Theorem C13_check_sound : forall line c tag pos diag,
+  check_C13 line = verdict c tag pos diag -> (c = 0 \/ c = 1)%Z ->
+  exists k fr ops, p_line line = Some ((k, fr, ops), []) /\ (exists body, line = 13%Z :: body) /\
+    batch_ok fr 0 [] fr /\
+    forall n op o, nth_error ops n = Some (op, o) ->
+      exists xs, nth_error (v_run k (map fst (firstn (S n) ops))) (op_target op) = Some xs /\
+                 batch_ok fr (N.of_nat (S n)) xs o.
+Proof. exact check_sound. Qed.
+Print Assumptions C13_check_sound.
+
+(* One comparison, every observable, against the BATCH definitions of exactly the values xs fed
+   (the model state s is eliminated through the invariant; lo/hi are the least/greatest value):
+     Count = |xs|;  Total a finite float within tolm_total of Qsum xs;  Weight within rounding of |xs|;
+     xs = []:    Min, Max, Mean, RMS equal to what the fresh accumulator reports;
+     xs <> []:   Min == least value, Max == greatest value (exactly);
+                 Mean a finite float within tolm_mean of mean_def xs = Qsum xs / |xs|;
+                 RMS a finite float r >= 0 with r^2 within tolm_msq + 8u*msq of meansq_def xs;
+     |xs| >= 2:  Variance a finite float within tolm_var of var_def xs = sum (x - mean)^2 / (|xs| - 1);
+                 StdDev a finite float sd >= 0 (never NaN) with sd^2 within tolm_var + 8u*var of var_def xs.
+   Nothing is demanded of Variance/StdDev for fewer than two values ("for two or more values"). *)
+Theorem C13_compare_all_sound : forall fr steps s o xs,
+  Inv s xs -> compare fr steps s o = None ->
+  let n := N.of_nat (length xs) in
+  let d := N.min n steps in
+  exists lo hi, (xs <> [] -> is_min lo xs /\ is_max hi xs) /\
+  o_count o = Z.of_nat (length xs) /\
+  (exists t, o_total o = XFin t /\ Qabs (t - Qsum xs) <= tolm_total d n lo hi) /\
+  (exists w, o_weight o = XFin w /\ Qabs (w - nQ xs) <= tolm_weight n) /\
+  (xs = [] -> xeq (o_min fr) (o_min o) = true /\ xeq (o_max fr) (o_max o) = true /\
+              xeq (o_mean fr) (o_mean o) = true /\ xeq (o_rms fr) (o_rms o) = true) /\
+  (xs <> [] -> (exists a, o_min o = XFin a /\ a == lo) /\ (exists b, o_max o = XFin b /\ b == hi) /\
+               (exists m, o_mean o = XFin m /\ Qabs (m - mean_def xs) <= tolm_mean d lo hi) /\
+               (exists r, o_rms o = XFin r /\ 0 <= r /\
+                          Qabs (r * r - meansq_def xs) <= tolm_msq d lo hi + 8 * ulp53 * meansq_def xs)) /\
+  ((2 <= length xs)%nat ->
+               (exists v, o_var o = XFin v /\ Qabs (v - var_def xs) <= tolm_var (var_def xs) lo hi) /\
+               (exists sd, o_std o = XFin sd /\ 0 <= sd /\
+                          Qabs (sd * sd - var_def xs) <= tolm_var (var_def xs) lo hi + 8 * ulp53 * var_def xs)).
+Proof. exact compare_all_sound. Qed.
+Print Assumptions C13_compare_all_sound.
+
+(* The run of the comparator over a history (the step between the two theorems above): after EVERY
+   operation the accumulator it touched satisfies the batch invariant for exactly the values fed to it
+   and the comparison of that step succeeded. *)
+Theorem C13_check_ok_sound : forall fr k ops tag,
+  run_cmp fr (repeat s_init k) ops 0%Z 0%Z = (tag, None) -> forall n, step_ok fr k ops n.
 Proof. exact check_ok_sound. Qed.
 Print Assumptions C13_check_ok_sound.
 
-(* ... which for instance means: the observed Count is the number of values, and the observed
-   Mean is a finite float within tol_mean of the batch mean. *)
-Theorem C13_compare_count_sound : forall s o xs, Inv s xs -> compare s o = None -> o_count o = Z.of_nat (length xs).
-Proof. exact compare_count_sound. Qed.
-Print Assumptions C13_compare_count_sound.
+(* Non-vacuity: a case line as the harness printed it on the unchanged library (3 accumulators: observe an
+   untouched one; Add 5, 7 to acc0; Add 1 to acc1; acc0.Combine(acc1); observe acc1; acc2.Combine(acc2) on
+   an empty accumulator; acc0.Combine(acc0)) is accepted with tag 15 ... *)
+Definition C13_example_line : list Z :=
+  [
+     13; 3; 0; 0; 0; 0; 0; 0; 0; 0; 0; 8; 2; 2; 0; 0; 0; 0; 0; 0; 0; 0; 0; 0; 0; 0; 4617315517961601024; 1;
+     4617315517961601024; 4617315517961601024; 4617315517961601024; 4617315517961601024;
+     18444492273895866368; 18444492273895866368; 4617315517961601024; 4607182418800017408; 0; 0;
+     4619567317775286272; 2; 4622945017495814144; 4617315517961601024; 4619567317775286272;
+     4618441417868443648; 4611686018427387904; 4609047870845172685; 4618534600193596473; 4611686018427387904;
+     0; 1; 4607182418800017408; 1; 4607182418800017408; 4607182418800017408; 4607182418800017408;
+     4607182418800017408; 18444492273895866368; 18444492273895866368; 4607182418800017408;
+     4607182418800017408; 1; 0; 1; 3; 4623507967449235456; 4607182418800017408; 4619567317775286272;
+     4616564918023705941; 4621443817620023979; 4614061780864084146; 4617315517961601024; 4613937818241073152;
+     2; 1; 0; 1; 4607182418800017408; 4607182418800017408; 4607182418800017408; 4607182418800017408;
+     18444492273895866368; 18444492273895866368; 4607182418800017408; 4607182418800017408; 1; 2; 2; 0; 0; 0;
+     0; 0; 0; 0; 0; 0; 1; 0; 0; 6; 4628011567076605952; 4607182418800017408; 4619567317775286272;
+     4616564918023705941; 4620092737731812830; 4613335507286852003; 4617315517961601024; 4618441417868443648 ]%Z.
+Example C13_check_accepts_example : check_C13 C13_example_line = verdict 0 15 (-1) [].
+Proof. vm_compute. reflexivity. Qed.
+(* ... and the same line with the Max printed in the Min field after the Combine (operation 4) is rejected
+   at that operation, observable 2 (Min): the comparator does compare. *)
+Example C13_check_rejects_min_printed_as_max :
+  exists diag, check_C13
+  [
+     13; 3; 0; 0; 0; 0; 0; 0; 0; 0; 0; 8; 2; 2; 0; 0; 0; 0; 0; 0; 0; 0; 0; 0; 0; 0; 4617315517961601024; 1;
+     4617315517961601024; 4617315517961601024; 4617315517961601024; 4617315517961601024;
+     18444492273895866368; 18444492273895866368; 4617315517961601024; 4607182418800017408; 0; 0;
+     4619567317775286272; 2; 4622945017495814144; 4617315517961601024; 4619567317775286272;
+     4618441417868443648; 4611686018427387904; 4609047870845172685; 4618534600193596473; 4611686018427387904;
+     0; 1; 4607182418800017408; 1; 4607182418800017408; 4607182418800017408; 4607182418800017408;
+     4607182418800017408; 18444492273895866368; 18444492273895866368; 4607182418800017408;
+     4607182418800017408; 1; 0; 1; 3; 4623507967449235456; 4619567317775286272; 4619567317775286272;
+     4616564918023705941; 4621443817620023979; 4614061780864084146; 4617315517961601024; 4613937818241073152;
+     2; 1; 0; 1; 4607182418800017408; 4607182418800017408; 4607182418800017408; 4607182418800017408;
+     18444492273895866368; 18444492273895866368; 4607182418800017408; 4607182418800017408; 1; 2; 2; 0; 0; 0;
+     0; 0; 0; 0; 0; 0; 1; 0; 0; 6; 4628011567076605952; 4607182418800017408; 4619567317775286272;
+     4616564918023705941; 4620092737731812830; 4613335507286852003; 4617315517961601024; 4618441417868443648 ]%Z
+  = verdict 2 5 4 (2%Z :: diag).
+Proof. eexists. vm_compute. reflexivity. Qed.
 
-Theorem C13_compare_mean_sound : forall s o xs, Inv s xs -> xs <> [] -> compare s o = None ->
-  exists m, o_mean o = XFin m /\ Qabs (m - mean_def xs) <= tol_mean s.
-Proof. exact compare_mean_sound. Qed.
-Print Assumptions C13_compare_mean_sound.
+(* Three more kernel-checked rejections of that line with one field falsified:
+   an accumulator that is empty after empty.Combine(empty) reporting Mean = NaN although a fresh one reports 0
+   (operation 6, observable 4) - round 1 compared nothing on an empty accumulator; *)
+Example C13_check_rejects_nan_mean_of_empty : exists t diag, check_C13
+  [
+     13; 3; 0; 0; 0; 0; 0; 0; 0; 0; 0; 8; 2; 2; 0; 0; 0; 0; 0; 0; 0; 0; 0; 0; 0; 0; 4617315517961601024; 1;
+     4617315517961601024; 4617315517961601024; 4617315517961601024; 4617315517961601024;
+     18444492273895866368; 18444492273895866368; 4617315517961601024; 4607182418800017408; 0; 0;
+     4619567317775286272; 2; 4622945017495814144; 4617315517961601024; 4619567317775286272;
+     4618441417868443648; 4611686018427387904; 4609047870845172685; 4618534600193596473; 4611686018427387904;
+     0; 1; 4607182418800017408; 1; 4607182418800017408; 4607182418800017408; 4607182418800017408;
+     4607182418800017408; 18444492273895866368; 18444492273895866368; 4607182418800017408;
+     4607182418800017408; 1; 0; 1; 3; 4623507967449235456; 4607182418800017408; 4619567317775286272;
+     4616564918023705941; 4621443817620023979; 4614061780864084146; 4617315517961601024; 4613937818241073152;
+     2; 1; 0; 1; 4607182418800017408; 4607182418800017408; 4607182418800017408; 4607182418800017408;
+     18444492273895866368; 18444492273895866368; 4607182418800017408; 4607182418800017408; 1; 2; 2; 0; 0; 0;
+     0; 9221120237041090561; 0; 0; 0; 0; 1; 0; 0; 6; 4628011567076605952; 4607182418800017408;
+     4619567317775286272; 4616564918023705941; 4620092737731812830; 4613335507286852003; 4617315517961601024;
+     4618441417868443648 ]%Z = verdict 2 t 6 (4%Z :: diag).
+Proof. eexists. eexists. vm_compute. reflexivity. Qed.
+(* StdDev = NaN for six values (operation 7, observable 6) - round 1 had a branch that could accept a NaN; *)
+Example C13_check_rejects_nan_stddev : exists t diag, check_C13
+  [
+     13; 3; 0; 0; 0; 0; 0; 0; 0; 0; 0; 8; 2; 2; 0; 0; 0; 0; 0; 0; 0; 0; 0; 0; 0; 0; 4617315517961601024; 1;
+     4617315517961601024; 4617315517961601024; 4617315517961601024; 4617315517961601024;
+     18444492273895866368; 18444492273895866368; 4617315517961601024; 4607182418800017408; 0; 0;
+     4619567317775286272; 2; 4622945017495814144; 4617315517961601024; 4619567317775286272;
+     4618441417868443648; 4611686018427387904; 4609047870845172685; 4618534600193596473; 4611686018427387904;
+     0; 1; 4607182418800017408; 1; 4607182418800017408; 4607182418800017408; 4607182418800017408;
+     4607182418800017408; 18444492273895866368; 18444492273895866368; 4607182418800017408;
+     4607182418800017408; 1; 0; 1; 3; 4623507967449235456; 4607182418800017408; 4619567317775286272;
+     4616564918023705941; 4621443817620023979; 4614061780864084146; 4617315517961601024; 4613937818241073152;
+     2; 1; 0; 1; 4607182418800017408; 4607182418800017408; 4607182418800017408; 4607182418800017408;
+     18444492273895866368; 18444492273895866368; 4607182418800017408; 4607182418800017408; 1; 2; 2; 0; 0; 0;
+     0; 0; 0; 0; 0; 0; 1; 0; 0; 6; 4628011567076605952; 4607182418800017408; 4619567317775286272;
+     4616564918023705941; 4620092737731812830; 9221120237041090561; 4617315517961601024; 4618441417868443648 ]%Z = verdict 2 t 7 (6%Z :: diag).
+Proof. eexists. eexists. vm_compute. reflexivity. Qed.
+(* Weight = Count + 1 (operation 2, observable 8). *)
+Example C13_check_rejects_weight_off_by_one : exists t diag, check_C13
+  [
+     13; 3; 0; 0; 0; 0; 0; 0; 0; 0; 0; 8; 2; 2; 0; 0; 0; 0; 0; 0; 0; 0; 0; 0; 0; 0; 4617315517961601024; 1;
+     4617315517961601024; 4617315517961601024; 4617315517961601024; 4617315517961601024;
+     18444492273895866368; 18444492273895866368; 4617315517961601024; 4607182418800017408; 0; 0;
+     4619567317775286272; 2; 4622945017495814144; 4617315517961601024; 4619567317775286272;
+     4618441417868443648; 4611686018427387904; 4609047870845172685; 4618534600193596473; 4613937818241073152;
+     0; 1; 4607182418800017408; 1; 4607182418800017408; 4607182418800017408; 4607182418800017408;
+     4607182418800017408; 18444492273895866368; 18444492273895866368; 4607182418800017408;
+     4607182418800017408; 1; 0; 1; 3; 4623507967449235456; 4607182418800017408; 4619567317775286272;
+     4616564918023705941; 4621443817620023979; 4614061780864084146; 4617315517961601024; 4613937818241073152;
+     2; 1; 0; 1; 4607182418800017408; 4607182418800017408; 4607182418800017408; 4607182418800017408;
+     18444492273895866368; 18444492273895866368; 4607182418800017408; 4607182418800017408; 1; 2; 2; 0; 0; 0;
+     0; 0; 0; 0; 0; 0; 1; 0; 0; 6; 4628011567076605952; 4607182418800017408; 4619567317775286272;
+     4616564918023705941; 4620092737731812830; 4613335507286852003; 4617315517961601024; 4618441417868443648 ]%Z = verdict 2 t 2 (8%Z :: diag).
+Proof. eexists. eexists. vm_compute. reflexivity. Qed.
 
 (* Non-vacuity: a three-accumulator history with an empty part on each side of a Combine. *)
 Example C13_history_example :
